@@ -4,7 +4,9 @@ C02 — Outputs locked by standard programs are spendable only with a matching w
 What is proved, for ALL keys, hashes, messages, witnesses and numbers of keys, about the VM model
 (`Model/VM/*`, validated opcode by opcode against vm.Verify by C08 and, for whole spends through
 validation.ValidateTx, by this property's own differential) run on the context
-`NewTxVMContext` builds for a spend (`Model/Spend.lean`):
+`NewTxVMContext` builds for a spend, a veto input or an issuance (`Model/Spend.lean`, `inputContext kind`:
+every verdict theorem is for an arbitrary entry `kind`; `p2wpkh_veto_iff`, `p2wsh_multisig_veto_iff`,
+`standard_verdict_same_for_all_kinds` spell the veto / issuance case out):
 
 * `p2wpkh_verdict` / `p2wpkh_spend_iff` — `Verify` of the converted P2WPKH program
   `DUP HASH160 <h> EQUALVERIFY TXSIGHASH SWAP CHECKSIG` with arguments `args`: the exact error
@@ -50,14 +52,14 @@ structure HashLens (cr : Crypto) : Prop where
 /-! ### P2WPKH -/
 
 /-- **exact verdict** of a spend of a P2WPKH output, for every witness -/
-theorem p2wpkh_verdict (cr : Crypto) (hl : HashLens cr) (co : Option CheckOutputFn) (txVersion blockHeight : Nat)
+theorem p2wpkh_verdict (cr : Crypto) (hl : HashLens cr) (co : Option CheckOutputFn) (kind : EntryKind) (txVersion blockHeight : Nat)
     (h sigHash : Bytes) (hh : h.length = 20) (hsl : sigHash.length = 32) (s : SpendInfo)
     (hcode : s.code = p2pkhCode h) (hv : s.vmVersion = 1) (G : Int)
     (hg : stackCost List.length s.stateData + 2 * stackCost List.length s.args + 1500 ≤ G)
     (fuel : Nat) (hfuel : 8 ≤ fuel) :
-    ∃ r, verifySpend cr co fuel txVersion blockHeight sigHash s G = some r ∧
+    ∃ r, verifyInput cr co fuel kind txVersion blockHeight sigHash s G = some r ∧
       r.err = p2pkhSpec cr.ripemd160 cr.verify h sigHash s.args :=
-  p2pkh_verify h hh (spendContext cr co txVersion blockHeight sigHash s) sigHash hcode hv rfl hsl hl.ripemd G hg fuel hfuel
+  p2pkh_verify h hh (inputContext cr co kind txVersion blockHeight sigHash s) sigHash hcode hv rfl hsl hl.ripemd G hg fuel hfuel
 
 /-- the accepting witnesses of the P2PKH signature program -/
 theorem p2pkhSpec_none_iff (hash160 : Bytes → Bytes) (verify : Bytes → Bytes → Bytes → Bool) (h sigHash : Bytes)
@@ -89,15 +91,15 @@ theorem p2pkhSpec_none_iff (hash160 : Bytes → Bytes) (verify : Bytes → Bytes
 
 /-- **P2WPKH spend**: accepted ⇔ the witness ends with a signature and the public key whose
     hash is committed, and the signature verifies for this transaction's signature hash -/
-theorem p2wpkh_spend_iff (cr : Crypto) (hl : HashLens cr) (co : Option CheckOutputFn) (txVersion blockHeight : Nat)
+theorem p2wpkh_spend_iff (cr : Crypto) (hl : HashLens cr) (co : Option CheckOutputFn) (kind : EntryKind) (txVersion blockHeight : Nat)
     (h sigHash : Bytes) (hh : h.length = 20) (hsl : sigHash.length = 32) (s : SpendInfo)
     (hcode : s.code = p2pkhCode h) (hv : s.vmVersion = 1) (G : Int)
     (hg : stackCost List.length s.stateData + 2 * stackCost List.length s.args + 1500 ≤ G)
     (fuel : Nat) (hfuel : 8 ≤ fuel) :
-    ∃ r, verifySpend cr co fuel txVersion blockHeight sigHash s G = some r ∧
+    ∃ r, verifyInput cr co fuel kind txVersion blockHeight sigHash s G = some r ∧
       (r.err = none ↔ ∃ extra sg pk, s.args = extra ++ [sg, pk] ∧ cr.ripemd160 pk = h ∧ pk.length = 32 ∧
         cr.verify pk sigHash sg = true) := by
-  obtain ⟨r, hr, he⟩ := p2wpkh_verdict cr hl co txVersion blockHeight h sigHash hh hsl s hcode hv G hg fuel hfuel
+  obtain ⟨r, hr, he⟩ := p2wpkh_verdict cr hl co kind txVersion blockHeight h sigHash hh hsl s hcode hv G hg fuel hfuel
   exact ⟨r, hr, by rw [he]; exact p2pkhSpec_none_iff _ _ _ _ _⟩
 
 /-- the failure classes, spelled out -/
@@ -239,20 +241,20 @@ theorem checkmultisig_bad_message (verify : Bytes → Bytes → Bytes → Bool) 
 
 /-- **P2SH program with any redeem script**: exact verdict, given what the script's own run
     (as the CHECKPREDICATE child, on the remaining witness items) yields -/
-theorem p2wsh_spend_verdict (cr : Crypto) (hl : HashLens cr) (co : Option CheckOutputFn) (txVersion blockHeight : Nat)
+theorem p2wsh_spend_verdict (cr : Crypto) (hl : HashLens cr) (co : Option CheckOutputFn) (kind : EntryKind) (txVersion blockHeight : Nat)
     (h sigHash : Bytes) (hh : h.length = 32) (s : SpendInfo) (hcode : s.code = p2shCode h) (hv : s.vmVersion = 1)
     (G : Int) (K : Nat) (childOk : Bytes → List Bytes → Bool)
     (hchild : ∀ script rest L, s.args.reverse = script :: rest → cr.sha3 script = h →
       G - stackCost List.length s.stateData - 3 * stackCost List.length s.args - 800 ≤ L → 0 ≤ L →
       ∃ k g f' er, k ≤ K ∧
-        FSteps (spendContext cr co txVersion blockHeight sigHash s) k ⟨script, 0, 0, L, 0, rest, [], 1, false⟩ g ∧
-        FFinal (spendContext cr co txVersion blockHeight sigHash s) g f' er ∧
+        FSteps (inputContext cr co kind txVersion blockHeight sigHash s) k ⟨script, 0, 0, L, 0, rest, [], 1, false⟩ g ∧
+        FFinal (inputContext cr co kind txVersion blockHeight sigHash s) g f' er ∧
         (er.isNone && !falseResult valueMem () f') = childOk script rest)
     (hg : stackCost List.length s.stateData + 3 * stackCost List.length s.args + 800 ≤ G)
     (fuel : Nat) (hfuel : K + 12 ≤ fuel) :
-    ∃ r, verifySpend cr co fuel txVersion blockHeight sigHash s G = some r ∧
+    ∃ r, verifyInput cr co fuel kind txVersion blockHeight sigHash s G = some r ∧
       r.err = p2shSpec cr.sha3 h childOk s.args :=
-  p2sh_verify h hh (spendContext cr co txVersion blockHeight sigHash s) hcode hv hl.sha3 G K childOk hchild hg fuel hfuel
+  p2sh_verify h hh (inputContext cr co kind txVersion blockHeight sigHash s) hcode hv hl.sha3 G K childOk hchild hg fuel hfuel
 
 theorem keyPushes_length (keys : List Bytes) (hk : ∀ k ∈ keys, k.length = 32) : (keyPushes keys).length = 33 * keys.length := by
   induction keys with
@@ -286,21 +288,21 @@ theorem msCode_length (keys : List Bytes) (m : Nat) (hk : ∀ k ∈ keys, k.leng
 /-- **P2WSH of the multisig script**: exact verdict for every witness. The committed hash is the
     hash of `TXSIGHASH <keys…> m n CHECKMULTISIG`; `hpre` says the witness cannot present another
     script with the same hash (an assumption about SHA3, visible here). -/
-theorem p2wsh_multisig_verdict (cr : Crypto) (hl : HashLens cr) (co : Option CheckOutputFn) (txVersion blockHeight : Nat)
+theorem p2wsh_multisig_verdict (cr : Crypto) (hl : HashLens cr) (co : Option CheckOutputFn) (kind : EntryKind) (txVersion blockHeight : Nat)
     (keys : List Bytes) (m : Nat) (sigHash : Bytes) (hk : ∀ k ∈ keys, k.length = 32) (hn : keys.length < 2 ^ 24)
     (hm : m < two63) (hsl : sigHash.length = 32)
     (hpre : ∀ x, cr.sha3 x = cr.sha3 (msCode keys m) → x = msCode keys m)
     (s : SpendInfo) (hcode : s.code = p2shCode (cr.sha3 (msCode keys m))) (hv : s.vmVersion = 1) (G : Int)
     (hg : stackCost List.length s.stateData + 3 * stackCost List.length s.args + 1100 * (keys.length : Int) + 1300 ≤ G)
     (fuel : Nat) (hfuel : keys.length + 16 ≤ fuel) :
-    ∃ r, verifySpend cr co fuel txVersion blockHeight sigHash s G = some r ∧
+    ∃ r, verifyInput cr co fuel kind txVersion blockHeight sigHash s G = some r ∧
       r.err = p2shSpec cr.sha3 (cr.sha3 (msCode keys m)) (fun _ rest => msOk cr.verify keys m sigHash rest) s.args := by
   have hlen := msCode_length keys m hk hn
-  apply p2wsh_spend_verdict cr hl co txVersion blockHeight _ sigHash (hl.sha3 _) s hcode hv G (keys.length + 4)
+  apply p2wsh_spend_verdict cr hl co kind txVersion blockHeight _ sigHash (hl.sha3 _) s hcode hv G (keys.length + 4)
   · intro script rest L _ hsha hL _
     have hscript := hpre script hsha
     subst hscript
-    exact ms_frame (spendContext cr co txVersion blockHeight sigHash s) keys m sigHash hk rfl hsl
+    exact ms_frame (inputContext cr co kind txVersion blockHeight sigHash s) keys m sigHash hk rfl hsl
       (by omega) hm hlen rest 0 L 0 [] 1 false (by omega)
   · have := stackCost_nonneg s.args
     omega
@@ -328,17 +330,17 @@ theorem msOk_iff (verify : Bytes → Bytes → Bytes → Bool) (keys : List Byte
 /-- **P2WSH-multisig spend**: accepted ⇔ the witness is `extra ++ sigs ++ [script]` with the
     committed script, exactly `m` signatures (`1 ≤ m ≤ n` unless `n = 0`), which embed in order
     into the committed keys, each verifying for this transaction's signature hash -/
-theorem p2wsh_multisig_spend_iff (cr : Crypto) (hl : HashLens cr) (co : Option CheckOutputFn) (txVersion blockHeight : Nat)
+theorem p2wsh_multisig_spend_iff (cr : Crypto) (hl : HashLens cr) (co : Option CheckOutputFn) (kind : EntryKind) (txVersion blockHeight : Nat)
     (keys : List Bytes) (m : Nat) (sigHash : Bytes) (hk : ∀ k ∈ keys, k.length = 32) (hn : keys.length < 2 ^ 24)
     (hm : m < two63) (hsl : sigHash.length = 32)
     (hpre : ∀ x, cr.sha3 x = cr.sha3 (msCode keys m) → x = msCode keys m)
     (s : SpendInfo) (hcode : s.code = p2shCode (cr.sha3 (msCode keys m))) (hv : s.vmVersion = 1) (G : Int)
     (hg : stackCost List.length s.stateData + 3 * stackCost List.length s.args + 1100 * (keys.length : Int) + 1300 ≤ G)
     (fuel : Nat) (hfuel : keys.length + 16 ≤ fuel) :
-    ∃ r, verifySpend cr co fuel txVersion blockHeight sigHash s G = some r ∧
+    ∃ r, verifyInput cr co fuel kind txVersion blockHeight sigHash s G = some r ∧
       (r.err = none ↔ ∃ extra sigs : List Bytes, s.args = extra ++ sigs ++ [msCode keys m] ∧ sigs.length = m ∧ m ≤ keys.length ∧
         (0 < keys.length → 0 < m) ∧ Embeds (fun p sg => cr.verify p sigHash sg) sigs keys) := by
-  obtain ⟨r, hr, he⟩ := p2wsh_multisig_verdict cr hl co txVersion blockHeight keys m sigHash hk hn hm hsl hpre s hcode hv G hg
+  obtain ⟨r, hr, he⟩ := p2wsh_multisig_verdict cr hl co kind txVersion blockHeight keys m sigHash hk hn hm hsl hpre s hcode hv G hg
     fuel hfuel
   refine ⟨r, hr, ?_⟩
   rw [he]
@@ -369,24 +371,24 @@ theorem p2wsh_multisig_spend_iff (cr : Crypto) (hl : HashLens cr) (co : Option C
 /-! ### the verdict depends on the transaction only through the signature hash -/
 
 /-- two spends of P2WPKH outputs with the same committed hash, the same witness and the same
-    signature hash get the same verdict — whatever the rest of the two transactions, the entry
-    ids, amounts, positions, block height, tx version and CheckOutput callback are -/
+    signature hash get the same verdict — whatever the entry kinds (spend / veto / issuance), the
+    rest of the two transactions, the entry ids, amounts, positions, block height, tx version and CheckOutput callback are -/
 theorem witness_only_matters_through_sighash_p2wpkh (cr : Crypto) (hl : HashLens cr) (co co' : Option CheckOutputFn)
-    (txv txv' bh bh' : Nat) (h sigHash : Bytes) (hh : h.length = 20) (hsl : sigHash.length = 32) (s s' : SpendInfo)
+    (kind kind' : EntryKind) (txv txv' bh bh' : Nat) (h sigHash : Bytes) (hh : h.length = 20) (hsl : sigHash.length = 32) (s s' : SpendInfo)
     (hcode : s.code = p2pkhCode h) (hcode' : s'.code = p2pkhCode h) (hv : s.vmVersion = 1) (hv' : s'.vmVersion = 1)
     (hargs : s.args = s'.args) (G G' : Int)
     (hg : stackCost List.length s.stateData + 2 * stackCost List.length s.args + 1500 ≤ G)
     (hg' : stackCost List.length s'.stateData + 2 * stackCost List.length s'.args + 1500 ≤ G')
     (fuel fuel' : Nat) (hfuel : 8 ≤ fuel) (hfuel' : 8 ≤ fuel') :
-    ∃ r r', verifySpend cr co fuel txv bh sigHash s G = some r ∧ verifySpend cr co' fuel' txv' bh' sigHash s' G' = some r' ∧
+    ∃ r r', verifyInput cr co fuel kind txv bh sigHash s G = some r ∧ verifyInput cr co' fuel' kind' txv' bh' sigHash s' G' = some r' ∧
       r.err = r'.err := by
-  obtain ⟨r, hr, he⟩ := p2wpkh_verdict cr hl co txv bh h sigHash hh hsl s hcode hv G hg fuel hfuel
-  obtain ⟨r', hr', he'⟩ := p2wpkh_verdict cr hl co' txv' bh' h sigHash hh hsl s' hcode' hv' G' hg' fuel' hfuel'
+  obtain ⟨r, hr, he⟩ := p2wpkh_verdict cr hl co kind txv bh h sigHash hh hsl s hcode hv G hg fuel hfuel
+  obtain ⟨r', hr', he'⟩ := p2wpkh_verdict cr hl co' kind' txv' bh' h sigHash hh hsl s' hcode' hv' G' hg' fuel' hfuel'
   exact ⟨r, r', hr, hr', by rw [he, he', hargs]⟩
 
 /-- the same for P2WSH-multisig spends -/
 theorem witness_only_matters_through_sighash_multisig (cr : Crypto) (hl : HashLens cr) (co co' : Option CheckOutputFn)
-    (txv txv' bh bh' : Nat) (keys : List Bytes) (m : Nat) (sigHash : Bytes) (hk : ∀ k ∈ keys, k.length = 32)
+    (kind kind' : EntryKind) (txv txv' bh bh' : Nat) (keys : List Bytes) (m : Nat) (sigHash : Bytes) (hk : ∀ k ∈ keys, k.length = 32)
     (hn : keys.length < 2 ^ 24) (hm : m < two63) (hsl : sigHash.length = 32)
     (hpre : ∀ x, cr.sha3 x = cr.sha3 (msCode keys m) → x = msCode keys m) (s s' : SpendInfo)
     (hcode : s.code = p2shCode (cr.sha3 (msCode keys m))) (hcode' : s'.code = p2shCode (cr.sha3 (msCode keys m)))
@@ -394,12 +396,50 @@ theorem witness_only_matters_through_sighash_multisig (cr : Crypto) (hl : HashLe
     (hg : stackCost List.length s.stateData + 3 * stackCost List.length s.args + 1100 * (keys.length : Int) + 1300 ≤ G)
     (hg' : stackCost List.length s'.stateData + 3 * stackCost List.length s'.args + 1100 * (keys.length : Int) + 1300 ≤ G')
     (fuel fuel' : Nat) (hfuel : keys.length + 16 ≤ fuel) (hfuel' : keys.length + 16 ≤ fuel') :
-    ∃ r r', verifySpend cr co fuel txv bh sigHash s G = some r ∧ verifySpend cr co' fuel' txv' bh' sigHash s' G' = some r' ∧
+    ∃ r r', verifyInput cr co fuel kind txv bh sigHash s G = some r ∧ verifyInput cr co' fuel' kind' txv' bh' sigHash s' G' = some r' ∧
       r.err = r'.err := by
-  obtain ⟨r, hr, he⟩ := p2wsh_multisig_verdict cr hl co txv bh keys m sigHash hk hn hm hsl hpre s hcode hv G hg fuel hfuel
-  obtain ⟨r', hr', he'⟩ := p2wsh_multisig_verdict cr hl co' txv' bh' keys m sigHash hk hn hm hsl hpre s' hcode' hv' G' hg'
+  obtain ⟨r, hr, he⟩ := p2wsh_multisig_verdict cr hl co kind txv bh keys m sigHash hk hn hm hsl hpre s hcode hv G hg fuel hfuel
+  obtain ⟨r', hr', he'⟩ := p2wsh_multisig_verdict cr hl co' kind' txv' bh' keys m sigHash hk hn hm hsl hpre s' hcode' hv' G' hg'
     fuel' hfuel'
   exact ⟨r, r', hr, hr', by rw [he, he', hargs]⟩
+
+/-! ### veto inputs and issuances run the same converted program -/
+
+/-- a VETO of a P2WPKH-locked vote output needs exactly the witness a spend needs -/
+theorem p2wpkh_veto_iff (cr : Crypto) (hl : HashLens cr) (co : Option CheckOutputFn) (txVersion blockHeight : Nat)
+    (h sigHash : Bytes) (hh : h.length = 20) (hsl : sigHash.length = 32) (s : SpendInfo)
+    (hcode : s.code = p2pkhCode h) (hv : s.vmVersion = 1) (G : Int)
+    (hg : stackCost List.length s.stateData + 2 * stackCost List.length s.args + 1500 ≤ G)
+    (fuel : Nat) (hfuel : 8 ≤ fuel) :
+    ∃ r, verifyInput cr co fuel .veto txVersion blockHeight sigHash s G = some r ∧
+      (r.err = none ↔ ∃ extra sg pk, s.args = extra ++ [sg, pk] ∧ cr.ripemd160 pk = h ∧ pk.length = 32 ∧
+        cr.verify pk sigHash sg = true) :=
+  p2wpkh_spend_iff cr hl co .veto txVersion blockHeight h sigHash hh hsl s hcode hv G hg fuel hfuel
+
+/-- a VETO of a P2WSH-multisig-locked vote output needs exactly the witness a spend needs -/
+theorem p2wsh_multisig_veto_iff (cr : Crypto) (hl : HashLens cr) (co : Option CheckOutputFn) (txVersion blockHeight : Nat)
+    (keys : List Bytes) (m : Nat) (sigHash : Bytes) (hk : ∀ k ∈ keys, k.length = 32) (hn : keys.length < 2 ^ 24)
+    (hm : m < two63) (hsl : sigHash.length = 32)
+    (hpre : ∀ x, cr.sha3 x = cr.sha3 (msCode keys m) → x = msCode keys m)
+    (s : SpendInfo) (hcode : s.code = p2shCode (cr.sha3 (msCode keys m))) (hv : s.vmVersion = 1) (G : Int)
+    (hg : stackCost List.length s.stateData + 3 * stackCost List.length s.args + 1100 * (keys.length : Int) + 1300 ≤ G)
+    (fuel : Nat) (hfuel : keys.length + 16 ≤ fuel) :
+    ∃ r, verifyInput cr co fuel .veto txVersion blockHeight sigHash s G = some r ∧
+      (r.err = none ↔ ∃ extra sigs : List Bytes, s.args = extra ++ sigs ++ [msCode keys m] ∧ sigs.length = m ∧
+        m ≤ keys.length ∧ (0 < keys.length → 0 < m) ∧ Embeds (fun p sg => cr.verify p sigHash sg) sigs keys) :=
+  p2wsh_multisig_spend_iff cr hl co .veto txVersion blockHeight keys m sigHash hk hn hm hsl hpre s hcode hv G hg fuel hfuel
+
+/-- for the standard programs the entry kind does not matter at all: a veto input or an issuance
+    with the same (converted) program, witness and signature hash gets the verdict of the spend -/
+theorem standard_verdict_same_for_all_kinds (cr : Crypto) (hl : HashLens cr) (co : Option CheckOutputFn) (kind : EntryKind)
+    (txVersion blockHeight : Nat) (h sigHash : Bytes) (hh : h.length = 20) (hsl : sigHash.length = 32) (s : SpendInfo)
+    (hcode : s.code = p2pkhCode h) (hv : s.vmVersion = 1) (G : Int)
+    (hg : stackCost List.length s.stateData + 2 * stackCost List.length s.args + 1500 ≤ G)
+    (fuel : Nat) (hfuel : 8 ≤ fuel) :
+    ∃ r r', verifyInput cr co fuel kind txVersion blockHeight sigHash s G = some r ∧
+      verifySpend cr co fuel txVersion blockHeight sigHash s G = some r' ∧ r.err = r'.err :=
+  witness_only_matters_through_sighash_p2wpkh cr hl co co kind .spend txVersion txVersion blockHeight blockHeight h sigHash
+    hh hsl s s hcode hcode hv hv rfl G G hg hg fuel fuel hfuel hfuel
 
 /-! ### a change of committed content invalidates the witness -/
 
@@ -535,7 +575,7 @@ def toySpend : SpendInfo :=
 
 /-- `p2wpkh_spend_iff` applies to a concrete spend and says: accepted -/
 example : ∃ r, verifySpend toy none 8 1 100 toyMsg toySpend 5000 = some r ∧ r.err = none := by
-  obtain ⟨r, hr, hiff⟩ := p2wpkh_spend_iff toy ⟨fun x => by simp [toy], fun x => by simp [toy]⟩ none 1 100
+  obtain ⟨r, hr, hiff⟩ := p2wpkh_spend_iff toy ⟨fun x => by simp [toy], fun x => by simp [toy]⟩ none .spend 1 100
     (toy.ripemd160 toyPk) toyMsg (by simp [toy]) (by simp [toyMsg]) toySpend rfl rfl 5000 (by decide) 8 (by omega)
   exact ⟨r, hr, hiff.mpr ⟨[], toyMsg, toyPk, rfl, rfl, by simp [toyPk], by decide⟩⟩
 
